@@ -595,7 +595,7 @@ let () =
        count corr prop; verdict id corr prop (Printf.sprintf "model=%s" (if corr then "same" else mo))
      | [id; "crash"; kind; input; impl] ->
        (* C05: no prediction, only the crash oracle *)
-       let prop = Some (impl <> "panic") in count true prop; verdict id true prop ("class=" ^ impl)
+       let prop = Some (not (String.length impl >= 5 && String.sub impl 0 5 = "panic")) in count true prop; verdict id true prop ("class=" ^ impl)
      | [id; "slice"; line; col; span; impl] ->
        let l = scalars_of_hex line and c = z_of_string col and n = z_of_string span in
        let show = function Some s -> "=" ^ hex_of_scalars s | None -> "-" in
